@@ -24,11 +24,11 @@ def run(tier, replay):
         longer = []
         for _ in range(150 if tier == "quick" else 3000):
             k = rng.randint(4, 6)
-            longer.append([rng.randrange(36) for _ in range(k)])
+            longer.append([rng.randrange(37) for _ in range(k)])
         # histories that exercise the pinned defects: abort inside an option cluster, then parse again
         special = [[15, 1], [15, 14], [15, 0, 3], [15, 15, 2], [12, 10], [12, 13], [12, 12, 10], [7, 1], [6, 14], [5, 8], [2, 0, 2], [14, 14, 3, 1],
                    # right key on one file, an operation in ANOTHER hash mode under a second key, then the first file with that second key
-                   [22, 8, 31], [8, 22, 31], [22, 1, 31], [3, 14, 31], [8, 19, 32], [19, 8, 32], [14, 2, 32], [19, 22, 33], [22, 19, 33], [16, 0, 33], [22, 8, 31, 22], [31, 22, 8, 31], [34, 13], [35, 13], [34, 35, 13]]
+                   [22, 8, 31], [8, 22, 31], [22, 1, 31], [3, 14, 31], [8, 19, 32], [19, 8, 32], [14, 2, 32], [19, 22, 33], [22, 19, 33], [16, 0, 33], [22, 8, 31, 22], [31, 22, 8, 31], [34, 13], [35, 13], [34, 35, 13], [36, 1], [36, 14], [36, 36, 2]]
         hists = short + pick3 + longer + special
     hp = os.path.join(d, "histories.txt")
     with open(hp, "w") as f:
@@ -41,7 +41,7 @@ def run(tier, replay):
         res.violation("an encryption alone in a fresh process failed, hung or crashed while the fixtures were made (T = 1, 2 or 4; see C01 / C04)", {"ops": [0]})
         return res.finish()
     fresh = sorted([e for e in evs if e["e"] == "fresh"], key=lambda e: e["op"])
-    if r.returncode != 0 or len(fresh) != 36:
+    if r.returncode != 0 or len(fresh) != 37:
         raise wv.Infra("history driver failed rc=%s, %d fresh results: %s" % (r.returncode, len(fresh), r.stderr[-800:]))
     ftab = [{"ret": e["ret"], "out": e["out"], "how": e["how"]} for e in fresh]
     events = []
@@ -55,7 +55,7 @@ def run(tier, replay):
     names = {e["op"]: e["name"] for e in fresh}
     res.cov.update({"traces_validated_against_impl": len(events), "evaluations": len(events), "distinct_nontrivial": len(set(tuple(e["ops"]) for e in events if len(e["ops"]) >= 2)),
                     "operation_alphabet": names,
-                    "rule": "design: History.tla - every history up to length 4 over the 36-operation alphabet (encrypt / decrypt / verify x three cipher-hash-thread configurations x valid / wrong key / tampered, garbage and out-of-range inputs, four option-parser calls, an unwritable output, three operations on runners built with the default Settings / thread count, three operations whose wrong key is the right key of a file with another hash mode) on the model of the process-wide state (singleton, live counter, getopt position incl. the hidden in-cluster position), with negative controls (del_instance omitted, counter not decremented, optind-only reset = D9). Binding: TLC emits all histories of length <= 3; the driver runs all of length <= 2, a seeded sample (thorough: all) of length 3 and random ones of length 4-6, each inside ONE forked process using the real library calls and get_v_opt, logging after every operation the result, the output bytes and the probe (instance == NULL, live_num); every operation is also run alone in a fresh process; TLC checks HistoryFree (a violation) and Quiescent (the probe; a drift note when only it fails). Non-trivial = at least two operations.",
+                    "rule": "design: History.tla - every history up to length 4 over the 37-operation alphabet (encrypt / decrypt / verify x three cipher-hash-thread configurations x valid / wrong key / tampered, garbage and out-of-range inputs, four option-parser calls, an unwritable output, three operations on runners built with the default Settings / thread count, three operations whose wrong key is the right key of a file with another hash mode) on the model of the process-wide state (singleton, live counter, getopt position incl. the hidden in-cluster position), with negative controls (del_instance omitted, counter not decremented, optind-only reset = D9). Binding: TLC emits all histories of length <= 3; the driver runs all of length <= 2, a seeded sample (thorough: all) of length 3 and random ones of length 4-6, each inside ONE forked process using the real library calls and get_v_opt, logging after every operation the result, the output bytes and the probe (instance == NULL, live_num); every operation is also run alone in a fresh process; TLC checks HistoryFree (a violation) and Quiescent (the probe; a drift note when only it fails). Non-trivial = at least two operations.",
                     "validator_states": st["states"], "exhaustive": False})
     for e in events[:: max(1, len(events) // 3)][:3]:
         res.sample({"ops": [names[o] for o in e["ops"]], "results": [{k: (v if k != "out" else len(v)) for k, v in r_.items()} for r_ in e["results"]]})
@@ -70,5 +70,5 @@ def run(tier, replay):
                 res.note("spec-drift: %s (History.tla assumes the singleton is deleted and the live counter is 0 after every operation; results and outputs of the explored histories are those of fresh processes)" % why[:160])
             continue
         res.violation("history %s: %s" % ([names[o] for o in e["ops"]], why[:300]), {"ops": e["ops"], "results": [{k: (v if k != "out" else v[:32]) for k, v in r_.items()} for r_ in e["results"]]})
-    res.assumptions += ["the operation alphabet is fixed (36 operations); histories beyond length 3 are sampled", "process-wide state visible to the probe: buffergroup::instance, bufferctrl::live_num; getopt/fout residue is observed through results only"]
+    res.assumptions += ["the operation alphabet is fixed (37 operations); histories beyond length 3 are sampled", "process-wide state visible to the probe: buffergroup::instance, bufferctrl::live_num; getopt/fout residue is observed through results only"]
     return res.finish()
